@@ -25,7 +25,16 @@ class Ctx:
         ds_adt = [a for a in facts['adts'] if a['path'].split('::')[-1] == 'DecodeState']
         self.dstates = [v['name'] for v in ds_adt[0]['variants']] if ds_adt else []   # display only
         self.ds = {n: i for i, n in enumerate(self.dstates)}
-        self.modfields = [f['name'] for f in p.adt('Modifiers')['variants'][0]['fields']]
+        KNOWN_FLAGS = ('lshift', 'rshift', 'lctrl', 'rctrl', 'numlock', 'capslock', 'lalt', 'ralt', 'rctrl2')
+        self.allmodfields = [f['name'] for f in p.adt('Modifiers')['variants'][0]['fields']]   # struct order
+        self.allmf = {n: i for i, n in enumerate(self.allmodfields)}
+        # the nine flags the properties talk about (table bit positions follow their order in the struct);
+        # a flag added later is carried along but must not influence anything the properties constrain
+        self.modfields = [n for n in self.allmodfields if n in KNOWN_FLAGS]
+        self.extra_modfields = [n for n in self.allmodfields if n not in KNOWN_FLAGS]
+        missing = [n for n in KNOWN_FLAGS if n not in self.allmodfields]
+        if missing:
+            raise Undecided('Modifiers lost the public flag(s) %s' % missing)
         self.mf = {n: i for i, n in enumerate(self.modfields)}
         self.hc = {v['name']: v['idx'] for v in p.adt('HandleControl')['variants']}
         self.dk = {v['name']: v['idx'] for v in p.adt('DecodedKey')['variants']}
@@ -144,6 +153,11 @@ class LayoutTable:
         self.n_classes = len(leaves)
         names = ['keycode'] + ['modifiers.' + f for f in ctx.modfields] + ['handle_ctrl']
         self.engine_stats = dict(engine.stats)
+        for lf in leaves:
+            for x in ctx.extra_modfields:
+                d = lf.doms.get('modifiers.' + x)
+                if d is not None and len(d) != 2:
+                    raise Undecided('layout %s depends on the modifier flag `%s`, which the properties do not know' % (name, x))
         for li, lf in enumerate(leaves):
             if lf.kind == 'return':
                 r = lf.ret
